@@ -13,7 +13,8 @@ MUTATORS = {"append", "extend", "insert", "pop", "remove", "clear", "sort", "rev
 # calls whose result is immutable (or not state at all): a module-level name bound to one of them is a constant
 PURE_MODULE_CALLS = ("re.compile", "t.TypeVar", "typing.TypeVar", "TypeVar", "enum.auto", "dataclasses.field",
                      "ord", "chr", "len", "int", "str", "bytes", "float", "bool", "frozenset", "tuple", "range", "struct.Struct",
-                     "struct.calcsize", "bytes.fromhex", "str.maketrans", "bytes.maketrans", "min", "max", "abs", "hex", "repr", "format")
+                     "struct.calcsize", "bytes.fromhex", "str.maketrans", "bytes.maketrans", "min", "max", "abs", "hex", "repr", "format",
+                     "operator.attrgetter", "operator.itemgetter", "operator.methodcaller", "attrgetter", "itemgetter", "methodcaller")
 # reviewed exception (I3): an idempotent memo in the enum's own value map; results are equal with or without the cache entry
 REVIEWED = {("sansldap._messages.LDAPResultCode._missing_", "cls._value2member_map_.setdefault"): "idempotent memo of unknown result codes inside the enum class itself"}
 
@@ -40,6 +41,15 @@ def k(c):
 def immutable_ctor(v: ast.Call, tree: ast.Module) -> bool:
     """A module-level call that builds an immutable value: a NamedTuple / enum class of the module, or tuple/frozenset/bytes/str/int."""
     name = norm(v.func).split(".")[-1]
+    if norm(v.func) in ("functools.partial", "partial") and v.args:
+        # a partial application holds its arguments for good: immutable when they are (constants, names, immutable constructions)
+        def imm(a) -> bool:
+            if isinstance(a, (ast.Constant, ast.Name, ast.Attribute)):
+                return True
+            if isinstance(a, ast.Tuple):
+                return all(imm(x) for x in a.elts)
+            return isinstance(a, ast.Call) and (norm(a.func) in PURE_MODULE_CALLS or immutable_ctor(a, tree))
+        return all(imm(a) for a in list(v.args) + [k.value for k in v.keywords])
     if name in ("tuple", "frozenset", "bytes", "str", "int", "float", "bool", "object"):
         return name != "object" or True
     for st in tree.body:
@@ -466,27 +476,176 @@ def check(model: Model, run: Run) -> None:
     run.floor("options arguments", n_args, 30)
     registrations_only_by_register(model, run)
     # ---- I6 registration -----------------------------------------------------------------------------------
+    registration_guarded(model, run)
+
+
+def registration_guarded(model: Model, run: Run, rule: str = "I6-registration-guarded") -> None:
+    """I6: every register_* refuses a duplicate before it appends.  The append (in the method, or in a helper that is handed the
+    `.choices` list) comes after a test that raises; the test is fed by a search of the *same* list that compares ids with ==;
+    and the way the search result is tested fits what the search returns: an element or a bool may be tested for truth, a
+    position must be compared with None (position 0 is a hit, and false)."""
     base = model.cls(f"{SESSION_MOD}.LDAPSession")
     regs = [fi for n, fi in base.methods.items() if n.startswith("register_")]
     run.floor("register_* methods", len(regs), 3)
+
+    def binds(fn, name):
+        return [a.value for a in walk_no_nested(fn.node) if isinstance(a, (ast.Assign, ast.AnnAssign)) and a.value is not None and
+                any(isinstance(t_, ast.Name) and t_.id == name for t_ in (a.targets if isinstance(a, ast.Assign) else [a.target]))]
+
+    def is_list(e, fn, lnames) -> bool:
+        if isinstance(e, ast.Call) and isinstance(e.func, ast.Name) and e.func.id in ("enumerate", "iter", "list", "tuple", "reversed") and e.args:
+            return is_list(e.args[0], fn, lnames)
+        return norm(e) in lnames
+
+    def search_kind(e, fn, lnames, depth=0):
+        """'element' | 'index' | 'bool' for an expression that searches the list for an equal id; None = not such a search"""
+        if depth > 3:
+            return None
+        if isinstance(e, ast.Call) and isinstance(e.func, ast.Name) and e.func.id == "next" and e.args and isinstance(e.args[0], ast.GeneratorExp):
+            g = e.args[0]
+            if len(g.generators) != 1 or not is_list(g.generators[0].iter, fn, lnames):
+                return None
+            if not any(isinstance(x, ast.Compare) and any(isinstance(o, ast.Eq) for o in x.ops) for c in g.generators[0].ifs for x in ast.walk(c)):
+                return None
+            tgt = g.generators[0].target
+            enum = isinstance(g.generators[0].iter, ast.Call) and norm(g.generators[0].iter.func) == "enumerate"
+            if isinstance(g.elt, ast.Constant):
+                return "bool" if g.elt.value is True else None
+            if isinstance(g.elt, ast.Name):
+                if enum and isinstance(tgt, ast.Tuple) and len(tgt.elts) == 2 and isinstance(tgt.elts[0], ast.Name) and g.elt.id == tgt.elts[0].id:
+                    return "index"
+                if enum and isinstance(tgt, ast.Tuple) and len(tgt.elts) == 2 and isinstance(tgt.elts[1], ast.Name) and g.elt.id == tgt.elts[1].id:
+                    return "element"
+                if isinstance(tgt, ast.Name) and g.elt.id == tgt.id and not enum:
+                    return "element"
+            return None
+        if isinstance(e, ast.Call) and isinstance(e.func, ast.Name) and e.func.id == "any" and e.args and isinstance(e.args[0], (ast.GeneratorExp, ast.ListComp)):
+            g = e.args[0]
+            if len(g.generators) == 1 and is_list(g.generators[0].iter, fn, lnames) and \
+                    any(isinstance(x, ast.Compare) and any(isinstance(o, ast.Eq) for o in x.ops) for x in ast.walk(g)):
+                return "bool"
+            return None
+        if isinstance(e, ast.Call) and isinstance(e.func, ast.Attribute) and e.func.attr == "index" and norm(e.func.value) in lnames:
+            return "index"
+        if isinstance(e, ast.Call) and isinstance(e.func, (ast.Name, ast.Attribute)):
+            # a search helper that is handed the list
+            callee = None
+            if isinstance(e.func, ast.Name):
+                q = model.resolve_name(fn.module, e.func.id)
+                callee = model.functions.get(q) if q else None
+            elif isinstance(e.func.value, ast.Name) and e.func.value.id in ("self", "cls") and fn.cls:
+                callee = model.find_method(fn.cls, e.func.attr)
+            if callee is None or isinstance(callee.node, ast.Lambda):
+                return None
+            ps = callee.params()
+            off = 1 if callee.cls and not callee.is_staticmethod and isinstance(e.func, ast.Attribute) else 0
+            sub = {ps[i + off] for i, a in enumerate(e.args) if norm(a) in lnames and i + off < len(ps)} | {k.arg for k in e.keywords if norm(k.value) in lnames}
+            if not sub:
+                return None
+            kinds = set()
+            rets = [r for r in walk_no_nested(callee.node) if isinstance(r, ast.Return)]
+            for r in rets:
+                if r.value is None or (isinstance(r.value, ast.Constant) and r.value.value is None):
+                    continue
+                v = r.value
+                if isinstance(v, ast.Name):
+                    bs = binds(callee, v.id)
+                    loop = [f_ for f_ in walk_no_nested(callee.node) if isinstance(f_, ast.For) and is_list(f_.iter, callee, sub) and
+                            any(isinstance(x, ast.Name) and x.id == v.id for x in ast.walk(f_.target))]
+                    if loop:
+                        enum = isinstance(loop[0].iter, ast.Call) and norm(loop[0].iter.func) == "enumerate"
+                        t_ = loop[0].target
+                        kinds.add("index" if enum and isinstance(t_, ast.Tuple) and isinstance(t_.elts[0], ast.Name) and t_.elts[0].id == v.id else "element")
+                        continue
+                    ks = {search_kind(b_, callee, sub, depth + 1) for b_ in bs if not (isinstance(b_, ast.Constant) and b_.value is None)}
+                    kinds |= ks
+                    continue
+                kinds.add(search_kind(v, callee, sub, depth + 1) if not isinstance(v, ast.Constant) else ("bool" if isinstance(v.value, bool) else None))
+            if len(kinds) == 1 and None not in kinds:
+                return kinds.pop()
+            return None
+        return None
+
     for fi in regs:
-        body = [s for s in fi.node.body if not (isinstance(s, ast.Expr) and isinstance(s.value, ast.Constant))]
-        app = [(i, s) for i, s in enumerate(body) if isinstance(s, ast.Expr) and isinstance(s.value, ast.Call) and isinstance(s.value.func, ast.Attribute) and s.value.func.attr == "append"]
-        guards = [(i, s) for i, s in enumerate(body) if isinstance(s, ast.If) and s.body and isinstance(s.body[-1], ast.Raise)]
-        ok = len(app) == 1 and bool(guards) and guards[0][0] < app[0][0]
-        why = "the duplicate test that raises does not come before the append"
-        if ok:
-            tgt = norm(app[0][1].value.func.value)
-            ok = tgt.startswith("self._packing_options.") and tgt.endswith(".choices")
-            why = f"appends to `{tgt}`, not to the session's own options"
-            if ok:
-                # the duplicate test looks at the same list and compares the type id with the new type's id
-                gsrc = " ".join(norm(s) for s in body[: app[0][0]])
-                ok = tgt in gsrc and "==" in gsrc
-                why = "the duplicate test does not compare against the list that is appended to"
-        run.ob("I6-registration-guarded", ok, {"method": fi.name})
+        # where the append happens: in the method, or in a helper handed the list
+        site_fn, lnames, app = None, set(), None
+        cands = [(fi, None)]
+        for c in walk_no_nested(fi.node):
+            if isinstance(c, ast.Call) and any(isinstance(a, ast.Attribute) and a.attr == "choices" for a in list(c.args) + [k.value for k in c.keywords]):
+                callee = None
+                if isinstance(c.func, ast.Name):
+                    q = model.resolve_name(fi.module, c.func.id)
+                    callee = model.functions.get(q) if q else None
+                elif isinstance(c.func, ast.Attribute) and isinstance(c.func.value, ast.Name) and c.func.value.id in ("self", "cls"):
+                    callee = model.find_method(fi.cls, c.func.attr)
+                if callee is not None and not isinstance(callee.node, ast.Lambda):
+                    cands.append((callee, c))
+        target_ok = True
+        for fn, call in cands:
+            names = set()
+            if call is None:
+                for a in walk_no_nested(fn.node):
+                    if isinstance(a, ast.Attribute) and a.attr == "choices":
+                        names.add(norm(a))
+                    if isinstance(a, (ast.Assign, ast.AnnAssign)) and a.value is not None and isinstance(a.value, ast.Attribute) and a.value.attr == "choices":
+                        names |= {t_.id for t_ in (a.targets if isinstance(a, ast.Assign) else [a.target]) if isinstance(t_, ast.Name)}
+            else:
+                ps = fn.params()
+                off = 1 if fn.cls and not fn.is_staticmethod and isinstance(call.func, ast.Attribute) else 0
+                names = {ps[i + off] for i, a in enumerate(call.args) if isinstance(a, ast.Attribute) and a.attr == "choices" and i + off < len(ps)} | \
+                        {k.arg for k in call.keywords if isinstance(k.value, ast.Attribute) and k.value.attr == "choices"}
+            apps = [x for x in walk_no_nested(fn.node) if isinstance(x, ast.Call) and isinstance(x.func, ast.Attribute) and x.func.attr in ("append", "insert", "extend") and norm(x.func.value) in names]
+            if apps:
+                site_fn, lnames, app = fn, names, apps[0]
+                # the list must be the session's own
+                srcs = [norm(a) for a in ast.walk(fi.node) if isinstance(a, ast.Attribute) and a.attr == "choices"]
+                target_ok = bool(srcs) and all(t_.startswith("self._packing_options.") for t_ in srcs)
+                break
+        ok, why = True, ""
+        if site_fn is None:
+            ok, why = False, "no append to a `.choices` list found (in the method or in a helper it hands the list to)"
+        elif not target_ok:
+            ok, why = False, "appends to a list that is not the session's own options"
+        else:
+            body = [s_ for s_ in site_fn.node.body if not (isinstance(s_, ast.Expr) and isinstance(s_.value, ast.Constant))]
+            idx = next((i for i, s_ in enumerate(body) if any(x is app for x in ast.walk(s_))), None)
+            top_level = idx is not None and isinstance(body[idx], ast.Expr) and body[idx].value is app
+            before = body[:idx] if idx is not None else []
+            guards = [s_ for s_ in before if isinstance(s_, ast.If) and s_.body and isinstance(s_.body[-1], ast.Raise) and not s_.orelse]
+            loops = [s_ for s_ in before if isinstance(s_, ast.For) and is_list(s_.iter, site_fn, lnames) and not s_.orelse and
+                     any(isinstance(x, ast.If) and x.body and isinstance(x.body[-1], ast.Raise) and
+                         any(isinstance(y, ast.Compare) and any(isinstance(o, ast.Eq) for o in y.ops) for y in ast.walk(x.test)) for x in s_.body)]
+            if not top_level:
+                ok, why = False, "the append is conditional"
+            elif loops:
+                ok = True
+            elif not guards:
+                ok, why = False, "the duplicate test that raises does not come before the append"
+            else:
+                g = guards[-1]
+                t = g.test
+                form = "truth"
+                if isinstance(t, ast.Compare) and len(t.ops) == 1 and isinstance(t.comparators[0], ast.Constant) and t.comparators[0].value is None and isinstance(t.ops[0], ast.IsNot):
+                    t, form = t.left, "notnone"
+                kind = None
+                if isinstance(t, ast.Name):
+                    bs = [b_ for b_ in binds(site_fn, t.id) if not (isinstance(b_, ast.Constant) and b_.value is None)]
+                    fl = [f_ for f_ in before if isinstance(f_, ast.For) and is_list(f_.iter, site_fn, lnames) and isinstance(f_.target, ast.Name) and f_.target.id == t.id
+                          and any(isinstance(x, ast.Break) for x in ast.walk(f_))
+                          and any(isinstance(y, ast.Compare) and any(isinstance(o, ast.Eq) for o in y.ops) for y in ast.walk(f_))]
+                    if fl:
+                        kind = "element"
+                    elif len(bs) == 1:
+                        kind = search_kind(bs[0], site_fn, lnames)
+                else:
+                    kind = search_kind(t, site_fn, lnames)
+                if kind is None:
+                    raise AnalysisError(f"{fi.qualname}: the duplicate test `{norm(g.test)[:60]}` is fed by a search this rule does not read")
+                if kind == "index" and form == "truth":
+                    ok, why = False, f"the search yields a position and is tested with `if {norm(g.test)[:30]}:` - position 0 is a hit but false, so a clash with the first registered type is accepted"
+        run.ob(rule, ok, {"method": fi.name})
         if not ok:
-            run.fail(Finding("I6-registration-guarded", fi.qualname, why[:80], f"{fi.name}: {why}", model.loc(SESSION_MOD, fi.node)))
+            run.fail(Finding(rule, fi.qualname, why[:80], f"{fi.name}: {why}", model.loc(SESSION_MOD, fi.node)))
 
 
 def registrations_only_by_register(model: Model, run: Run, rule: str = "I9-choices-change-only-by-registration") -> None:
@@ -495,10 +654,35 @@ def registrations_only_by_register(model: Model, run: Run, rule: str = "I9-choic
     registering, is the contract."""
     MUT = {"append", "extend", "insert", "remove", "pop", "clear", "sort", "reverse", "__iadd__", "__setitem__", "__delitem__"}
     n = 0
+    # helpers that are handed a `.choices` list: (callee qualname, parameter) -> the functions that hand it over
+    handed: Dict[Tuple[str, str], Set[str]] = {}
     for fq, fi in sorted(model.functions.items()):
         if isinstance(fi.node, ast.Lambda):
             continue
-        aliases = set()
+        for c in walk_no_nested(fi.node):
+            if not isinstance(c, ast.Call):
+                continue
+            callee = None
+            if isinstance(c.func, ast.Name):
+                q = model.resolve_name(fi.module, c.func.id)
+                callee = model.functions.get(q) if q else None
+            elif isinstance(c.func, ast.Attribute) and isinstance(c.func.value, ast.Name) and c.func.value.id in ("self", "cls") and fi.cls:
+                callee = model.find_method(fi.cls, c.func.attr)
+            if callee is None or isinstance(callee.node, ast.Lambda):
+                continue
+            ps = callee.params()
+            off = 1 if callee.cls and not callee.is_staticmethod and isinstance(c.func, ast.Attribute) else 0
+            for i, a in enumerate(c.args):
+                if isinstance(a, ast.Attribute) and a.attr == "choices" and i + off < len(ps):
+                    handed.setdefault((callee.qualname, ps[i + off]), set()).add(fq)
+            for k in c.keywords:
+                if isinstance(k.value, ast.Attribute) and k.value.attr == "choices" and k.arg in ps:
+                    handed.setdefault((callee.qualname, k.arg), set()).add(fq)
+    for fq, fi in sorted(model.functions.items()):
+        if isinstance(fi.node, ast.Lambda):
+            continue
+        aliases = {p_ for (cq_, p_) in handed if cq_ == fq}
+        via_register = bool(aliases) and all(g.rsplit(".", 1)[-1].startswith("register_") for (cq_, p_), gs in handed.items() if cq_ == fq for g in gs)
         for a in walk_no_nested(fi.node):
             if isinstance(a, (ast.Assign, ast.AnnAssign)) and a.value is not None and isinstance(a.value, ast.Attribute) and a.value.attr == "choices":
                 for t_ in (a.targets if isinstance(a, ast.Assign) else [a.target]):
@@ -521,12 +705,12 @@ def registrations_only_by_register(model: Model, run: Run, rule: str = "I9-choic
                 continue
             n += 1
             in_ctor = fi.name in ("__init__", "__post_init__") and isinstance(hit, ast.Assign)
-            ok = fi.name.startswith("register_") or in_ctor
+            ok = fi.name.startswith("register_") or in_ctor or via_register
             run.ob(rule, ok, {"function": fq.split("sansldap.")[-1], "construct": norm(hit)[:60]})
             if not ok:
                 run.fail(Finding(rule, fq, norm(hit)[:80], f"{fq.split('sansldap.')[-1]} changes a list of registered custom types (`{norm(hit)[:60]}`) outside the register_* methods: "
                                  "the session starts to decode a type nobody registered with it", model.loc(fi.module, hit)))
-    run.floor("mutations of the registered-type lists", n, 3)
+    run.floor("mutations of the registered-type lists", n, 1)
 
 
 def parse_results_fresh(model: Model, run: Run, module: str, rule: str, what: str) -> None:
